@@ -92,11 +92,11 @@ Ignore == out' = {} /\ UNCHANGED core
 \* The node must ignore the message when it has no guardian set yet or when the message names the
 \* governance emitter (never signed); it may ignore it when a VAA for the message id is already stored
 \* ("late observation" rule) or when the payload is empty (such a VAA could never be decoded again).
+\* While the store does not answer (up = FALSE) the stored-VAA lookup fails, which is not evidence of a stored VAA.
 MustIgnore(m) == gs = Nil \/ m.gov
-MayIgnore(m)  == MustIgnore(m) \/ m.id \in DOMAIN db \/ m.empty
+MayIgnore(m)  == MustIgnore(m) \/ (up /\ m.id \in DOMAIN db) \/ m.empty
 
 LocalMessageChoice(m, signs) ==
-    /\ up
     /\ IF signs
        THEN ~MustIgnore(m) /\ Sign(m.d, [id |-> m.id, setIdx |-> gs.idx, chain |-> m.chain, src |-> "chain"], m.tx)
        ELSE MayIgnore(m) /\ Ignore
@@ -104,7 +104,7 @@ LocalMessageChoice(m, signs) ==
 LocalMessage(m) == \E signs \in BOOLEAN : LocalMessageChoice(m, signs)
 
 \* case v := <-p.injectC.   v = [d, id, setIdx, chain]
-Inject(v) == up /\ Sign(v.d, [id |-> v.id, setIdx |-> v.setIdx, chain |-> v.chain, src |-> "inject"], Nil)
+Inject(v) == Sign(v.d, [id |-> v.id, setIdx |-> v.setIdx, chain |-> v.chain, src |-> "inject"], Nil)
 
 \* case m := <-p.obsvC.   o = [d, claimed, signer, over]
 ObsSet(d) == IF d \in DOMAIN agg /\ agg[d].snap # Nil THEN agg[d].snap ELSE gs
@@ -126,19 +126,19 @@ ObsEffect(o) ==
             THEN LET v == [d |-> o.d, id |-> e1.our.id, setIdx |-> e1.our.setIdx, sigs |-> sigs,
                            by |-> S, via |-> e1.our.src]
                  IN /\ agg' = Put(agg, o.d, [e1 EXCEPT !.submitted = TRUE])
-                    /\ db'  = Put(db, v.id, v)
+                    /\ db'  = IF up THEN Put(db, v.id, v) ELSE db     \* a failing store does not hold back the broadcast
                     /\ out' = {[kind |-> "vaa", vaa |-> v]}
             ELSE /\ agg' = Put(agg, o.d, e1)
                  /\ out' = {}
                  /\ UNCHANGED db
 
-Observation(o) == up /\ ObsEffect(o) /\ UNCHANGED <<gs, up, loop, now, learned, observed>>
+Observation(o) == ObsEffect(o) /\ UNCHANGED <<gs, up, loop, now, learned, observed>>
 
 \* The node's own signature coming back through obsvC.
 OwnObs(d) == [d |-> d, claimed |-> Self, signer |-> Self, over |-> d]
 
 Loopback(d) ==
-    /\ up /\ Count(loop, d) > 0
+    /\ Count(loop, d) > 0
     /\ ObsEffect(OwnObs(d))
     /\ loop' = IF loop[d] = 1 THEN Drop(loop, {d}) ELSE [loop EXCEPT ![d] = @ - 1]
     /\ UNCHANGED <<gs, up, now, learned, observed>>
@@ -156,7 +156,7 @@ InboundAccept(w) ==
 \* The properties only forbid storing what fails the check; they do not oblige the node to keep
 \* every valid copy it is shown, so `stores` is the implementation's choice when acceptance is allowed.
 InboundVAAChoice(w, stores) ==
-    /\ up
+    /\ (stores => up)
     /\ out' = {}
     /\ UNCHANGED <<gs, agg, up, loop, now, learned, observed>>
     /\ IF stores
@@ -167,8 +167,8 @@ InboundVAAChoice(w, stores) ==
 
 InboundVAA(w) == \E stores \in BOOLEAN : InboundVAAChoice(w, stores)
 
-\* Fault: the store stops answering (closed handle, I/O error).  While it is down only time and cleanup
-\* ticks are specified; what the other handlers do with a failing store is outside the listed properties.
+\* Fault: the store stops answering (closed handle, I/O error): lookups fail (no evidence of a stored VAA), writes
+\* fail (nothing is stored); signing, aggregation and broadcasting go on.
 StoreDown ==
     /\ up /\ up' = FALSE /\ out' = {}
     /\ UNCHANGED <<gs, agg, db, loop, now, learned, observed>>
@@ -176,7 +176,6 @@ StoreDown ==
 \* The guardian process dies and comes back (crash, upgrade, supervisor restart of the whole node): the aggregation
 \* state, the current guardian set and the own observations in flight are gone, the store persists.
 Restart ==
-    /\ up
     /\ gs' = Nil /\ agg' = <<>> /\ loop' = <<>>
     /\ out' = {[kind |-> "restart"]}
     /\ UNCHANGED <<db, up, now, learned, observed>>
@@ -231,7 +230,7 @@ VaaOK(v) ==
 
 StoredValid    == \A id \in DOMAIN db : VaaOK(db[id]) /\ db[id].id = id
 BroadcastValidStep ==
-    \A o \in out' : o.kind = "vaa" => VaaOK(o.vaa)' /\ db'[o.vaa.id] = o.vaa
+    \A o \in out' : o.kind = "vaa" => VaaOK(o.vaa)' /\ (up => db'[o.vaa.id] = o.vaa)
 BroadcastValid == [][BroadcastValidStep]_vars
 
 \* A stored VAA changes only together with the node's own publication of that message.
@@ -261,7 +260,7 @@ PublishAsSoonAs ==
     \A d \in DOMAIN agg : (HaveQuorum(agg[d]) /\ Count(loop, d) = 0) => agg[d].submitted
 
 SubmittedMeansStored ==
-    \A d \in DOMAIN agg : agg[d].submitted => agg[d].our # Nil /\ agg[d].our.id \in DOMAIN db
+    \A d \in DOMAIN agg : agg[d].submitted => agg[d].our # Nil /\ (up => agg[d].our.id \in DOMAIN db)
 
 AtMostOncePerLifetimeStep ==
     \A o \in out' : o.kind = "vaa" =>
